@@ -45,28 +45,28 @@ CHECKS = {
   'note': 'Bounded: <= 9 parameters, 4 draw-independent hints; thorough tier enumerates all signatures with <= 3 parameters x calls with <= 3 positional and <= 2 keyword arguments. Trusted: CPython argument binding.',
  },
  'C12': {
-  'technique': 'property-based testing: generated validator expression trees and objects, reference evaluator of the boolean meaning',
+  'technique': 'property-based testing: generated validator expression trees and objects, reference evaluator of the boolean meaning + coverage-guided fuzzing (atheris/libFuzzer over the same strategy and oracle, thorough tier)',
   'text': 'Validator trees over Is/IsAttr/IsEqual/IsInstance/IsSubclass with & | ~ (depth <= 5 quick / 8 thorough, 1-3 per Annotated, attribute names colliding after mangling) '
           'and objects shaped after the expressions (nested attribute bags, missing attributes, classes and non-classes) are generated; is_valid, is_bearable, '
           'die_if_unbearable, a decorated call, get_diagnosis and the diagnosis block of the violation message must all equal my evaluator of the boolean meaning.',
   'note': 'Bounded exploration; predicates are named total functions; trusted: the 20-line evaluator meaning() in vlib/props/c12.py.',
  },
  'C18': {
-  'technique': 'property-based testing: metamorphic relation conf-rewritten hint vs hand-rewritten hint under the same controlled draw',
+  'technique': 'property-based testing: metamorphic relation conf-rewritten hint vs hand-rewritten hint under the same controlled draw + coverage-guided fuzzing (atheris/libFuzzer over the same strategy and oracle, thorough tier)',
   'text': 'float / complex / overridden sub-hints are injected at generated depths of grammar hints; my own structural rewrite produces the hand-written hint; all six '
           'entry points must give the same verdict and signal class for (H, is_pep484_tower/hint_overrides conf) and (rewritten H, same conf without them) for each draw, '
           'with violation_* options varied on both sides.',
   'note': _GRAMMAR_NOTE + ' Override keys are restricted to hints that occur only as ordinary sub-hints (see evidence assumptions).',
  },
  'C19': {
-  'technique': 'property-based testing: widening-chain generator for (A, B, C), algebraic laws + object-level soundness against the reference semantics and is_bearable',
+  'technique': 'property-based testing: widening-chain generator for (A, B, C), algebraic laws + object-level soundness against the reference semantics and is_bearable + coverage-guided fuzzing (atheris/libFuzzer over the same strategy and oracle, thorough tier)',
   'text': 'Triples are generated as widening chains (so that the relation holds often) or at random, plus literal look-alike probes; reflexivity, transitivity on '
           'beartype\'s answers, soundness on objects built to conform to A (checked against B by is_bearable for every draw and by the reference semantics), and the '
           'TypeHint laws (memoisation, eq => equal hash and mutual subhints, len/iter/getitem/contains coherence) are asserted.',
   'note': _GRAMMAR_NOTE + ' Completeness of is_subhint is not asserted; undecidable answers (documented exception) are counted as unanswered; Hashable is excluded (issubclass(Collection, Hashable) is True in Python itself).',
  },
  'C20': {
-  'technique': 'property-based testing: round trip is_bearable(obj, infer_hint(obj)) over a recursive object generator, all draws',
+  'technique': 'property-based testing: round trip is_bearable(obj, infer_hint(obj)) over a recursive object generator, all draws + coverage-guided fuzzing (atheris/libFuzzer over the same strategy and oracle, thorough tier)',
   'text': 'Objects are generated recursively (scalars, enums, builtin and collections containers of any nesting and item mix, dict views, ranges, '
           'user-defined Sequence/Mapping/Set by ABC and by dunder methods, callables, classes, iterators, self-referential and mutually recursive containers); '
           'the hint inferred under the default configuration must accept the object for every draw 0..len-1 and boundary draws; directly recursive containers must '
@@ -105,12 +105,12 @@ CHECKS = {
   'note': 'Bounded exploration; containers of 0-5 items. A ChainMap whose first map is a defaultdict is not generated (ChainMap.__getitem__ itself inserts there).',
  },
  'C11': {
-  'technique': 'property-based testing / grammar fuzzing of hint-construction programs with a validity oracle on escaping exceptions, bucketed by (phase, class, innermost beartype frame)',
+  'technique': 'property-based testing / grammar fuzzing of hint-construction programs with a validity oracle on escaping exceptions, bucketed by (phase, class, innermost beartype frame) + coverage-guided fuzzing (atheris/libFuzzer over the same strategy and oracle, thorough tier)',
   'text': 'Arbitrary objects are built as hints by generated programs (typing factories over junk leaves, wrong arity, special forms, deep nesting) and passed to @beartype '
           '(decoration and call, parameter and return), is_bearable, die_if_unbearable, TypeHint and is_subhint (both sides); anything that escapes must be a public '
           'BeartypeException of the right phase class and every warning a BeartypeWarning. User exceptions raised by wrapped bodies, Is[...] predicates and __instancecheck__ '
           'hooks must come back as the identical object.',
-  'note': 'Hypothesis-driven (no atheris campaign: coverage feedback through exec-generated code gave no gradient in trials); failures raised by typing itself while building a hint are discarded.',
+  'note': 'Hypothesis shards in both tiers; the thorough tier adds 8 libFuzzer campaigns of 600 s through fuzz_one_input with beartype instrumented for coverage; failures raised by typing itself while building a hint are discarded.',
  },
  'C13': {
   'technique': 'property-based testing: generated class sources, differential between @beartype on the class and a hand-written per-member rewriter',
